@@ -141,7 +141,8 @@ type Cfg struct {
 	Closable  bool    `json:"closable"`
 	WarmUp    bool    `json:"warmup"`
 	Pools     int     `json:"pools"`
-	OtherLong bool    `json:"other_long,omitempty"` // pools other than the first run a long paced profile with unbounded ammo
+	OtherLong bool    `json:"other_long,omitempty"`
+	CauseDeadline bool `json:"cause_deadline,omitempty"` // the injected failure is the component's own timeout (wraps context.DeadlineExceeded) // pools other than the first run a long paced profile with unbounded ammo
 	Bound     int     `json:"bound"`
 	Advance   bool    `json:"advance"`
 	AdvanceMs int64   `json:"advance_ms,omitempty"`
@@ -149,7 +150,7 @@ type Cfg struct {
 
 func (c Cfg) Name() string {
 	return fmt.Sprintf("%s|startup=%s|rps=%s|perinst=%v|ammo=%d|discard=%v|shot=%v|fault=%s@%d|cancel=%v%v|pools=%d|closable=%v|warm=%v|adv=%v|otherlong=%v",
-		c.Prop, c.Startup, c.RPS, c.PerInst, c.Ammo, c.Discard, c.ShotMs, c.Fault.Kind, c.Fault.Pos, c.Cancel, c.CancelMs, c.Pools, c.Closable, c.WarmUp, c.Advance, c.OtherLong)
+		c.Prop, c.Startup, c.RPS, c.PerInst, c.Ammo, c.Discard, c.ShotMs, c.Fault.Kind, c.Fault.Pos, c.Cancel, c.CancelMs, c.Pools, c.Closable, c.WarmUp, c.Advance, c.OtherLong) + map[bool]string{true: "|cause=deadline", false: ""}[c.CauseDeadline]
 }
 
 type poolState struct {
@@ -178,7 +179,7 @@ type run struct {
 func (r *run) newWorld() *World {
 	c := r.cfg
 	w := &World{T0: r.t0, Items: c.Ammo, Acquired: map[int]int{}, ProvFailAt: -1, GunFailAt: -1, BindFailAt: -1,
-		PanicAtShot: -1, SchedFailAt: -1, Tokens: map[int]*Token{}, Closable: c.Closable, WarmUp: c.WarmUp, Cause: r.cause}
+		PanicAtShot: -1, SchedFailAt: -1, Tokens: map[int]*Token{}, Closable: c.Closable, WarmUp: c.WarmUp, Cause: r.cause, CauseBare: c.CauseDeadline}
 	for _, m := range c.ShotMs {
 		w.ShotDur = append(w.ShotDur, ms(m))
 	}
@@ -214,6 +215,9 @@ func (r *run) scenario(x *vs.X) func(end, msg string) error {
 	c := r.cfg
 	r.t0 = time.Now()
 	r.cause = errors.New("INJECTED-CAUSE")
+	if c.CauseDeadline {
+		r.cause = context.DeadlineExceeded // the component's own timeout, returned bare
+	}
 	r.pools = nil
 	r.runErr, r.runReturned, r.waitRet, r.cancelled = nil, false, false, false
 	r.clock, r.cancelStamp, r.runStamp = 0, 0, 0
